@@ -11,6 +11,18 @@ trimesh.transformations / trimesh.geometry, snaps every returned float to the ex
 (residual 1e-9; a value that does not snap is listed as {"offlattice": x} and the record is
 rejected by the spec), and TLC validates every record in batch (code -> spec).  Expected
 matrices / points / factors are computed by TLC only.
+
+Round trips with a non-unique representation (Euler angles, quaternion sign, axis sign, point on
+the axis) are judged on the rotation TLC rebuilds from the returned parameters.  A second half
+of a round trip whose input (a matrix the implementation itself produced) was already rejected
+is skipped, not judged twice.
+
+Known defect on the pinned tree (reported, not loosened): decompose_matrix never takes its
+gimbal-lock branch (`if np.cos(angles[1])` is 6e-17, not 0, at +-pi/2).  Rejections of
+decompose_matrix records are attributed by a predicate on the INPUT only:
+  DecomposeGimbalShear  middle angle +-pi/2 and non-zero shear
+  DecomposeGimbalExact  middle angle +-pi/2, zero shear, exact (noise-free) input matrix
+Everything else is a plain violation.
 """
 import itertools
 import math
@@ -470,6 +482,8 @@ def work_items(tier):
     for q in LQ:
         W.append(("quat", q, True))
     ratq = list(RATQ)
+    if big:
+        ratq += more_ratq(rs, 200)
     for q in ratq:
         W.append(("quat", q, False))
         W.append(("quat", tuple(-x for x in q), False))
@@ -485,7 +499,7 @@ def work_items(tier):
         for q0 in LQ:
             W.append(("qmul", q1, q0))
     for q1 in ratq:
-        for q0 in ratq:
+        for q0 in (ratq if q1 in RATQ else [ratq[j] for j in rs.choice(len(ratq), 6, replace=False)]):
             W.append(("qmul", q1, q0))
         W.append(("qmul", q1, LQ[int(rs.randint(len(LQ)))]))
     # axis-angle
@@ -607,6 +621,18 @@ def work_items(tier):
         for b in AXES6:
             W.append(("align", a, b))
     return W
+
+
+def more_ratq(rs, count):
+    """primitive integer quaternions with square norm 9 .. 169 (rational rotations in general position)"""
+    pool = []
+    for q in itertools.product(range(-12, 13), repeat=4):
+        n = sum(x * x for x in q)
+        if n in (9, 25, 49, 81, 121, 169) and math.gcd(math.gcd(q[0], q[1]), math.gcd(q[2], q[3])) == 1 \
+                and sum(1 for x in q if x) >= 3 and q not in RATQ:
+            pool.append(q)
+    pick = rs.choice(len(pool), size=min(count, len(pool)), replace=False)
+    return [pool[j] for j in sorted(pick)]
 
 
 def A_cos(k):
